@@ -638,6 +638,33 @@ def blocking_flush_sync(chk, P, prefix):
     chk.ob("%s.R4:tokio::flush" % prefix, "async flush registers a callback that signals the oneshot it awaits", tokio_flush)
 
 
+def callable_param(P, b, o):
+    """Index of the enclosing function's parameter a called closure/callback operand is (directly, or as a capture of the async
+    body): rules name callbacks by position (exec(self, wait, on_batch), send_or_wait(self, msg, timeout, elapsed, wait)),
+    not by what the parameter happens to be called."""
+    d = 0
+    while d < 6:
+        d += 1
+        if o[0] == "param":
+            return o[1] if not b.is_closure else None
+        if o[0] == "capture":
+            po = P.capture_origin(b, o)
+            if po[0] == "param":
+                return po[1]
+            if po[0] == "capture":
+                par = P.bodies.get(b.parent_key)
+                if par is None:
+                    return None
+                b, o = par, po
+                continue
+            return None
+        if o[0] == "field":
+            o = o[1]
+            continue
+        return None
+    return None
+
+
 # ---- C08 ---------------------------------------------------------------------------------------------------------------------------------------
 
 def containment(chk, P, prefix):
@@ -651,7 +678,7 @@ def containment(chk, P, prefix):
                 return o[2]
             return (mir.o_field_path(o)[1] or [None])[-1]
         direct = [c for c in b.calls(normal_only=True) if c.callee.get("name") in ("call_mut", "call", "call_once")
-                  and nm_of(b.origin(c.args[0])) == "on_batch"]
+                  and callable_param(P, b, b.origin(c.args[0], through_calls=("deref_mut",))) == 3]
         if direct:
             return False, "on_batch is called outside catch_unwind at %s: a panicking processor would kill the receiver" % direct[0].loc, [], direct[0].loc
         cu = b.calls_to(path="std::panic::catch_unwind")
@@ -734,7 +761,8 @@ def bounded_retry(chk, P, prefix):
                 if o[0] == "param":
                     return o[2]
                 return (mir.o_field_path(o)[1] or [None])[-1]
-            ws = [c for c in b.calls(normal_only=True) if c.callee.get("name") in ("call_mut", "call") and nm_of(b.origin(c.args[0], through_calls=("deref_mut",))) == "wait"
+            ws = [c for c in b.calls(normal_only=True) if c.callee.get("name") in ("call_mut", "call")
+                  and callable_param(P, b, b.origin(c.args[0], through_calls=("deref_mut",))) == 2
                   and common.has_root(b.origin(c.args[1]), "callsite", dn[0].bb)]
             if not ws:
                 return False, ("a retry does not wait for the back-off: no wait(self.retry_delay.next()) call; a failing destination would be "
@@ -1090,9 +1118,9 @@ def send_rules(chk, P, prefix):
                 return o[2]
             return (mir.o_field_path(o)[1] or [None])[-1]
         w = [c for c in b.calls(normal_only=True) if c.callee.get("name") in ("call_mut", "call")
-             and nm_of(b.origin(c.args[0])) == "wait_until_empty"]
+             and callable_param(P, b, b.origin(c.args[0], through_calls=("deref_mut",))) == 5]
         if len(w) != 1:
-            return False, "expected one wait_until_empty call", [], b.span
+            return False, "expected one call of the wait callback (send_or_wait's last parameter)", [], b.span
         wa = b.origin(w[0].args[1])
         rs = common.roots(wa)
         if not any(k == "callsite" for k, v in rs) or not mir.o_is_call(wa[2][1] if wa[0] == "agg" and len(wa[2]) > 1 else ("x",), name="saturating_sub"):
